@@ -11,6 +11,7 @@ are loaded afterwards (C08.i).
 Added in round 5: renderd front end and back end use different tile lock ids (C08.j); the record is
 appended before the index entry is set (C08.k, shared C06.c)."""
 import ast
+import re
 
 from ..engine import rule
 from ..model import Undecided
@@ -539,3 +540,96 @@ def c08k(ctx):
     finds behind every index entry a complete record -- the record is appended before the index entry is set"""
     from ..engine import share
     share(ctx, 'C06', {'C06.c'}, keep=lambda o: 'Bundle' in o.construct)
+
+
+@rule('C08.l', floor=2)
+def c08l(ctx):
+    """every response contains the correct image -- also the response of the request that lost the race: when the re-check under the
+    meta tile lock finds the tiles already stored, they are loaded from the cache into *new* tile objects; that load names the
+    dimensions of the request (`dimensions=self.dimensions`), or the loser reads the directory of no dimension: no image, or the image
+    of another dimension value"""
+    n = 0
+    for m in ('_create_meta_tile', '_create_bulk_meta_tile'):
+        fn = ctx.fn(TILE + ':TileCreator.' + m)
+        for x in fn.walk():
+            if is_call(x, 'self.cache.load_tiles'):
+                n += 1
+                d = keyword(x, 'dimensions', 2)
+                ctx.check(d is not None and unparse(d) == 'self.dimensions', 'TileCreator.%s:loser-loads-with-dimensions' % m,
+                          'cache.load_tiles(.., dimensions=self.dimensions)', fn, x,
+                          fail='TileCreator.%s loads the tiles another request created without the dimensions of the request' % m)
+    if n < 2:
+        raise Undecided('only %d load_tiles calls in the meta tile creators' % n)
+
+
+@rule('C08.m', floor=1)
+def c08m(ctx):
+    """requests for different meta tiles do not block each other: the name of a tile lock separates the three numbers of the
+    coordinate -- `'-'.join(map(str, tile.coord))`, or a format with a non-digit literal between every two of them.  (Written
+    `{x}{y}`, the tiles (4, 48, z) and (44, 8, z) share one lock file and wait for each other until one times out)"""
+    fn = ctx.fn('mapproxy/cache/base.py:TileLocker.lock_filename')
+    rets = [fn.canon.expr(r.value) for r in returns_of(fn.node) if r.value is not None]
+    if not rets:
+        raise Undecided('TileLocker.lock_filename: no return')
+
+    def coord_index(e):
+        c = fn.canon.expr(e) if isinstance(e, ast.Name) else e
+        if isinstance(c, ast.Call) and call_name(c) == 'str' and c.args:
+            c = fn.canon.expr(c.args[0]) if isinstance(c.args[0], ast.Name) else c.args[0]
+        if isinstance(c, ast.Subscript) and unparse(c.value) == 'tile.coord' and isinstance(const_value(c.slice), int):
+            return const_value(c.slice)
+        return None
+
+    def pieces(e):
+        """flat list of ('lit', text) / ('coord', i) / ('all', None) / ('other', None) in order"""
+        if isinstance(e, ast.JoinedStr):
+            out = []
+            for v in e.values:
+                if isinstance(v, ast.Constant):
+                    out.append(('lit', str(v.value)))
+                elif isinstance(v, ast.FormattedValue):
+                    i = coord_index(v.value)
+                    out.append(('coord', i) if i is not None else ('other', None))
+            return out
+        if isinstance(e, ast.BinOp) and isinstance(e.op, ast.Add):
+            return pieces(e.left) + pieces(e.right)
+        if isinstance(e, ast.BinOp) and isinstance(e.op, ast.Mod) and isinstance(e.left, ast.Constant) and isinstance(e.left.value, str):
+            args = e.right.elts if isinstance(e.right, ast.Tuple) else [e.right]
+            out, k = [], 0
+            for part in re.split(r'(%[sdi])', e.left.value):
+                if re.fullmatch(r'%[sdi]', part):
+                    i = coord_index(args[k]) if k < len(args) else None
+                    out.append(('coord', i) if i is not None else ('other', None))
+                    k += 1
+                elif part:
+                    out.append(('lit', part))
+            return out
+        if isinstance(e, ast.Constant):
+            return [('lit', str(e.value))]
+        if isinstance(e, ast.Call) and isinstance(e.func, ast.Attribute) and e.func.attr == 'join' and isinstance(e.func.value, ast.Constant) and \
+                e.args and 'tile.coord' in unparse(e.args[0]) and any(not ch.isdigit() for ch in str(e.func.value.value)):
+            return [('all', None)]          # sep.join(<the three numbers>): separated by construction
+        i = coord_index(e)
+        return [('coord', i)] if i is not None else [('other', None)]
+    ok = True
+    for r in rets:
+        args = r.args if is_call(r, 'os.path.join') else [r]
+        ps = pieces(args[-1])
+        if ('all', None) in ps:
+            continue
+        idx = [k for k, (kind, v) in enumerate(ps) if kind == 'coord']
+        ok = ok and sorted(v for kind, v in ps if kind == 'coord') == [0, 1, 2]
+        for a, b in zip(idx, idx[1:]):
+            between = ''.join(v for kind, v in ps[a + 1:b] if kind == 'lit')
+            ok = ok and any(not ch.isdigit() for ch in between)
+    ctx.check(ok, 'TileLocker.lock_filename:coordinates-separated', 'x, y and z stand in the lock file name with a separator between them', fn,
+              fail='the tile lock file name runs two coordinate numbers together: different tiles share one lock')
+
+
+@rule('C08.n', floor=2)
+def c08n(ctx):
+    """shared rule C13.a, re-evaluated for this property: the re-check under the tile lock asks the store for the age of the tile
+    (TileManager.is_cached loads the metadata whenever a threshold is in force, not only for a tile object without time stamp) -- or
+    a tile a competitor has just refreshed is fetched a second time"""
+    from ..engine import share
+    share(ctx, 'C13', {'C13.a'})
